@@ -29,7 +29,10 @@ Forms(s) == (IF s.fn THEN {"func", "call"} ELSE {}) \cup (IF s.me /\ s.n >= 1 TH
 
 SpellingsOf(s, given) ==
     {[m |-> m, form |-> f, explicit |-> x] :
-        m \in {k \in 0..s.n : k = 0 \/ k \in given},      \* the positional prefix ends with a given argument
+        \* the positional prefix ends with a given argument, or with exactly one empty slot (of a defaulted parameter) that is
+        \* directly followed by keyword arguments:  f(a, , k => v)
+        m \in {k \in 0..s.n : k = 0 \/ k \in given
+                               \/ (k >= 2 /\ k \notin given /\ s.dflt[k] /\ (k - 1) \in given /\ \E j \in given : j > k)},
         f \in Forms(s), x \in BOOLEAN}
 
 \* does the spelling bind at all?
@@ -38,6 +41,7 @@ Valid(s, given, sp) ==
         slots == {i \in 1..sp.m : i \notin given}
     IN /\ (kw # {} => ~s.nokw)                                        \* keywords need a function that accepts them
        /\ (sp.form = "method" => 1 \in given /\ sp.m >= 1)            \* the receiver is the first positional argument
+       /\ (sp.form = "method" /\ sp.m \notin given => sp.m >= 3)       \* an empty slot needs a value before it inside the parentheses
        /\ (sp.explicit => \A i \in slots : ~s.lazy[i])                \* only eager defaults can be written out
        /\ (sp.explicit => slots # {})                                 \* (otherwise it is the same text as the non-explicit spelling)
 
